@@ -39,6 +39,10 @@ def cases(ctx):
     yield {"kind": "salts", "seed": rng.getrandbits(32), "n": ctx.per_shard(ctx.pick(80000, 1500000))}
     for _ in range(ctx.per_shard(ctx.pick(200, 4000))):
         yield {"kind": "extreme", "seed": rng.getrandbits(32)}
+    # last: after this process has built thousands of anonymizers with other salts, the replacement for
+    # (salt, number) must still be what a pristine interpreter computes
+    for _ in range(ctx.pick(1, 6)):
+        yield {"kind": "pristine", "seed": rng.getrandbits(32)}
 
 
 def gen_numbers(rng):
@@ -126,6 +130,8 @@ def check_case(ctx, case):
         return _salts(ctx, case, nc)
     if k == "extreme":
         return _extreme(ctx, case, nc)
+    if k == "pristine":
+        return _pristine(ctx, case, nc)
     raise HarnessError("unknown kind")
 
 
@@ -205,6 +211,36 @@ def _salts(ctx, case, nc):
             ctx.info.setdefault("sampled_offsets_block_%d" % b, {"min": lo_seen[b], "max": hi_seen[b], "size": BLOCKS[b][1] - BLOCKS[b][0] + 1})
     if hi_seen[1] == 1023:
         ctx.count("private16_upper_end_reached_by_sampling")
+
+
+def _pristine(ctx, case, nc):
+    import json
+    import subprocess
+    import sys
+
+    rng = random.Random(case["seed"])
+    jobs = []
+    for _ in range(8):
+        nums = sorted(set(rng.sample([str(e) for e in EDGE], 3) + gen_numbers(rng)))
+        jobs.append({"nums": nums, "salt": rng.choice(["saltForTest", "x", "", "k%d" % rng.getrandbits(20)])})
+    code = ("import json,sys\nfrom netconan.sensitive_item_removal import AsNumberAnonymizer\n"
+            "jobs=json.load(sys.stdin)\nprint(json.dumps([{n: AsNumberAnonymizer(j['nums'], j['salt']).anonymize(n) for n in j['nums']} for j in jobs]))")
+    p = subprocess.run([sys.executable, "-c", code], input=json.dumps(jobs), env=load.child_env(rng.randint(1, 9999)),
+                       capture_output=True, text=True, timeout=120)
+    ctx.count("cli_child_processes")
+    if p.returncode != 0:
+        raise HarnessError("pristine child failed: %s" % p.stderr[-400:])
+    pristine = json.loads(p.stdout)
+    for j, want in zip(jobs, pristine):
+        here = nc.sir.AsNumberAnonymizer(list(j["nums"]), j["salt"])
+        for n in j["nums"]:
+            ctx.ev()
+            ctx.count("pristine_child_comparisons")
+            got = here.anonymize(n)
+            if got != want[n]:
+                ctx.violation(dict(case, witness={"n": n, "salt": j["salt"]}), "replacement-depends-on-process-history",
+                              "AS %s with salt %r -> %s in this long-running process but %s in a pristine interpreter" % (n, j["salt"], got, want[n]))
+                return
 
 
 class _StubDigest:
